@@ -1,2 +1,133 @@
-/- placeholder: the C14 driver is not built yet -/
-def main : IO Unit := IO.println "C14: driver not built yet"
+/- C14 line-protocol driver: prints `model <TAB> spec` for each case line.
+
+   `<op> t=<type> [u=<type>] a=<int>|as=[..] [b=<int>|bs=[..]]`
+   types: u8 u16 u32 u64 i8 i16 i32 i64.  With a list argument the op is evaluated for every element
+   and the results are printed as `[r1,r2,...]`. -/
+import Tetl.Proto
+import Tetl.C14.Model
+import Tetl.C14.Spec
+namespace Tetl.C14.Driver
+open Tetl Tetl.Proto Tetl.C14
+
+def tyOf : String → Option ITy
+  | "u8" => some ⟨8, false⟩ | "u16" => some ⟨16, false⟩ | "u32" => some ⟨32, false⟩ | "u64" => some ⟨64, false⟩
+  | "ull" => some ⟨64, false⟩ | "ll" => some ⟨64, true⟩
+  | "i8" => some ⟨8, true⟩ | "i16" => some ⟨16, true⟩ | "i32" => some ⟨32, true⟩ | "i64" => some ⟨64, true⟩
+  | _ => none
+
+def fmtE {α : Type} (f : α → String) : Except Err α → String
+  | .ok a => f a
+  | .error e => e.fmt
+
+def sN (n : Nat) : String := toString n
+def sI (i : Int) : String := toString i
+def sB (b : Bool) : String := fmtBool b
+def sP (p : Int × Int) : String := s!"{p.1}/{p.2}"
+
+/-- unsigned-only ops: the argument must be a value of the type -/
+def natArg (t : ITy) (a : Int) : Option Nat :=
+  if !t.sg && t.inR a then some a.toNat else none
+
+def six (eq lt gt : Bool) : String :=
+  String.join [sB eq, sB (!eq), sB lt, sB gt, sB (!gt), sB (!lt)]
+
+/-- one evaluation: `(model, spec)`; `none` = bad-op -/
+def eval (op : String) (t : ITy) (u : Option ITy) (a : Int) (b : Option Int) : Option (String × String) :=
+  let w := t.w
+  let unsArg : Option Nat := natArg t a
+  match op, unsArg, b, u with
+  -- <bit>, unary
+  | "popcount", some x, none, _ => some (fmtE sN (popcount w x), sN (Spec.popcount w x))
+  | "popcount_fb", some x, none, _ => some (fmtE sN (popcountFallback w x), sN (Spec.popcount w x))
+  | "countl_zero", some x, none, _ => some (fmtE sN (countlZero w x), sN (Spec.countlZero w x))
+  | "countl_one", some x, none, _ => some (fmtE sN (countlOne w x), sN (Spec.countlOne w x))
+  | "countr_zero", some x, none, _ => some (fmtE sN (countrZero w x), sN (Spec.countrZero w x))
+  | "countr_one", some x, none, _ => some (fmtE sN (countrOne w x), sN (Spec.countrOne w x))
+  | "bit_width", some x, none, _ => some (fmtE sN (bitWidth w x), sN (Spec.bitWidth x))
+  | "bit_ceil", some x, none, _ => some (fmtE sN (bitCeil w x), sN (Spec.bitCeil x))
+  | "bit_floor", some x, none, _ => some (fmtE sN (bitFloor w x), sN (Spec.bitFloor x))
+  | "has_single_bit", some x, none, _ => some (fmtE sB (hasSingleBit w x), sB (Spec.hasSingleBit x))
+  | "byteswap_fb", some x, none, _ => some (fmtE sN (byteswapFallback w x), sN (Spec.bswap (w / 8) x))
+  | "ntoh", some x, none, _ => some (fmtE sN (ntoh w x), sN (Spec.bswap (w / 8) x))
+  | "hton", some x, none, _ => some (fmtE sN (hton w x), sN (Spec.bswap (w / 8) x))
+  -- <bit>, binary
+  | "rotl", some x, some s, _ => some (fmtE sN (rotl w x s), sN (Spec.rotl w x s))
+  | "rotr", some x, some s, _ => some (fmtE sN (rotr w x s), sN (Spec.rotr w x s))
+  | "test_bit", some x, some p, _ =>
+    if p < 0 then none else some (fmtE sB (testBit w x p.toNat), sB (Spec.testBit x p.toNat))
+  | "set_bit", some x, some p, _ =>
+    if p < 0 then none else some (fmtE sN (setBit w x p.toNat), sN (Spec.setBit x p.toNat))
+  | "reset_bit", some x, some p, _ =>
+    if p < 0 then none else some (fmtE sN (resetBit w x p.toNat), sN (Spec.resetBit x p.toNat))
+  | "flip_bit", some x, some p, _ =>
+    if p < 0 then none else some (fmtE sN (flipBit w x p.toNat), sN (Spec.flipBit x p.toNat))
+  | "set_bit_1", some x, some p, _ =>
+    if p < 0 then none else some (fmtE sN (setBitTo w x p.toNat true), sN (Spec.setBit x p.toNat))
+  | "set_bit_0", some x, some p, _ =>
+    if p < 0 then none else some (fmtE sN (setBitTo w x p.toNat false), sN (Spec.resetBit x p.toNat))
+  | "saturate_cast", _, none, some f =>
+    -- t = To, u = From; `a` is a value of From
+    if !f.inR a then none else some (fmtE sI (saturateCast t f a), sI (Spec.clampTo t.min t.max a))
+  | "in_range", _, none, some f =>
+    if !f.inR a then none else some (sB (inRange t f a), sB (decide (t.min ≤ a) && decide (a ≤ t.max)))
+  | _, _, _, _ =>
+  if !t.inR a then none else
+  match op, b, u with
+  | "byteswap", none, _ =>
+    some (fmtE sI (byteswap t a), sI (t.conv (Spec.bswap (w / 8) (t.uns.conv a).toNat)))
+  | "abs", none, _ => some (fmtE sI (absT t a), sI (Spec.abs a))
+  | "mabs", none, _ => some (fmtE sI (absM t a), sI (Spec.abs a))
+  | "ilog2", none, _ => some (fmtE sI (ilog2 t a), sI (Spec.ilog2 a.toNat))
+  | "ipow2", none, _ => some (fmtE sI (ipow2 t a), sI (Spec.ipow 2 a.toNat))
+  | "add_sat", some y, _ =>
+    if !t.inR y then none else some (fmtE sI (addSat t a y), sI (Spec.clampTo t.min t.max (a + y)))
+  | "add_sat_fb", some y, _ =>
+    if !t.inR y then none else some (fmtE sI (addSatFallback t a y), sI (Spec.clampTo t.min t.max (a + y)))
+  | "div_sat", some y, _ =>
+    if !t.inR y then none else some (fmtE sI (divSat t a y), sI (Spec.clampTo t.min t.max (Int.tdiv a y)))
+  | "midpoint", some y, _ =>
+    if !t.inR y then none else some (fmtE sI (midpoint t a y), sI (Spec.midpoint a y))
+  | "idiv", some y, _ =>
+    if !t.inR y then none else some (fmtE sP (idiv t a y), sP (Spec.idiv a y))
+  | "ipow", some y, _ =>
+    if !t.inR y then none else some (fmtE sI (ipow t a y), sI (Spec.ipow a y.toNat))
+  | "gcd", some y, some n =>
+    if !n.inR y then none else some (fmtE sI (gcd t n a y), sI (Spec.gcd a y))
+  | "lcm", some y, some n =>
+    if !n.inR y then none else some (fmtE sI (lcm t n a y), sI (Spec.lcm a y))
+  | "cmp", some y, some n =>
+    if !n.inR y then none else
+      let m := String.join [sB (cmpEqual t n a y), sB (cmpNotEqual t n a y), sB (cmpLess t n a y),
+                            sB (cmpGreater t n a y), sB (cmpLessEqual t n a y), sB (cmpGreaterEqual t n a y)]
+      some (m, six (decide (a = y)) (decide (a < y)) (decide (a > y)))
+  | _, _, _ => none
+
+def joinRes (rs : List (String × String)) : String × String :=
+  ("[" ++ ",".intercalate (rs.map (·.1)) ++ "]", "[" ++ ",".intercalate (rs.map (·.2)) ++ "]")
+
+def step (_ : Unit) (l : Line) : Unit × String :=
+  let bad := ((), "bad-op\tbad-op")
+  let out (r : String × String) := ((), r.1 ++ "\t" ++ r.2)
+  match (l.str? "t").bind tyOf with
+  | none => bad
+  | some t =>
+    let u := (l.str? "u").bind tyOf
+    if (l.get? "u").isSome && u.isNone then bad else
+    match l.int? "a", l.list? "as", l.int? "b", l.list? "bs" with
+    | some a, none, b, none =>
+      match eval l.op t u a b with
+      | some r => out r
+      | none => bad
+    | none, some as, b, none =>
+      match as.mapM (fun a => eval l.op t u a b) with
+      | some rs => out (joinRes rs)
+      | none => bad
+    | some a, none, none, some bs =>
+      match bs.mapM (fun b => eval l.op t u a (some b)) with
+      | some rs => out (joinRes rs)
+      | none => bad
+    | _, _, _, _ => bad
+
+end Tetl.C14.Driver
+
+def main : IO Unit := Tetl.Proto.runDriver () Tetl.C14.Driver.step
